@@ -25,56 +25,56 @@ theorem not_required_of_omittable (v : Vec) (ho : v.omittable = true) : v.reduce
 
 theorem mustExact (v : Vec) (hv : v.valid = true) (ho : v.omittable = false) :
     MustExact tableDecision v.reduce := by
-  have h := allR mustExact_closed v.reduce hv (required_of_not_omittable v ho)
+  have h := allR mustExact_closed v.reduce (Vec.valid_reduce v hv) (required_of_not_omittable v ho)
   rwa [← decision_eq] at h
 
 theorem mustFamiliesNeedNull' (v : Vec) (hv : v.valid = true) (ho : v.omittable = false)
     (hn : v.admitsNull = false) : MustFamiliesNeedNull v.reduce := by
-  refine allR mustFamiliesNeedNull v.reduce hv ?_
+  refine allR mustFamiliesNeedNull v.reduce (Vec.valid_reduce v hv) ?_
   have hr := required_of_not_omittable v ho
   have hn' : v.reduce.nullsrc.admitsNull = false := hn
   simp [hr, hn']
 
 theorem omitExact (v : Vec) (hv : v.valid = true) (ho : v.omittable = true) :
     OmitExact tableDecision v.reduce := by
-  have h := allR omitExact_closed v.reduce hv (by simp [not_required_of_omittable v ho])
+  have h := allR omitExact_closed v.reduce (Vec.valid_reduce v hv) (by simp [not_required_of_omittable v ho])
   rwa [← decision_eq] at h
 
 theorem valueExact (v : Vec) (hv : v.valid = true) (ho : v.omittable = true) (hd : v.dflt.isNone = false) :
     ValueExact tableDecision v.reduce := by
-  have h := allR valueExact_closed v.reduce hv (by
+  have h := allR valueExact_closed v.reduce (Vec.valid_reduce v hv) (by
     have : v.reduce.dflt = v.dflt := rfl
     simp [not_required_of_omittable v ho, this, hd])
   rwa [← decision_eq] at h
 
 theorem noneReads (v : Vec) (hv : v.valid = true) (ho : v.omittable = true) (hd : v.dflt.isNone = true) :
     NoneReads tableDecision v.reduce := by
-  have h := allR noneReads_closed v.reduce hv (by
+  have h := allR noneReads_closed v.reduce (Vec.valid_reduce v hv) (by
     have : v.reduce.dflt = v.dflt := rfl
     simp [not_required_of_omittable v ho, this, hd])
   rwa [← decision_eq] at h
 
 theorem mutableExact (v : Vec) (hv : v.valid = true) (ho : v.omittable = true) (hd : v.dflt.isMutable = true) :
     MutableExact tableDecision v.reduce := by
-  have h := allR mutableExact_closed v.reduce hv (by
+  have h := allR mutableExact_closed v.reduce (Vec.valid_reduce v hv) (by
     have : v.reduce.dflt = v.dflt := rfl
     simp [not_required_of_omittable v ho, this, hd])
   rwa [← decision_eq] at h
 
 theorem dcFactory (v : Vec) (hv : v.valid = true) (ho : v.omittable = true) (hd : v.dflt.isMutable = true) :
     DcFactory tableDecision v.reduce := by
-  have h := allR dcFactory_closed v.reduce hv (by
+  have h := allR dcFactory_closed v.reduce (Vec.valid_reduce v hv) (by
     have : v.reduce.dflt = v.dflt := rfl
     simp [not_required_of_omittable v ho, this, hd])
   rwa [← decision_eq] at h
 
 theorem nullExact (v : Vec) (hv : v.valid = true) (hn : v.admitsNull = true) :
     NullExact tableDecision v.reduce := by
-  have h := allR nullExact_closed v.reduce hv hn
+  have h := allR nullExact_closed v.reduce (Vec.valid_reduce v hv) hn
   rwa [← decision_eq] at h
 
 theorem sortKeyExact (v : Vec) (hv : v.valid = true) : SortKeyExact tableDecision v.reduce := by
-  have h := allR sortKeyExact_closed v.reduce hv rfl
+  have h := allR sortKeyExact_closed v.reduce (Vec.valid_reduce v hv) rfl
   rwa [← decision_eq] at h
 
 end Dcg.Proofs.Field
